@@ -11,6 +11,7 @@ RULE = ("seeded histories (5-60 ops over points AND keys: arithmetic, "
         "curves; non-trivial = >= 2 state-changing operations or >= 1 fault; "
         "distinct = distinct sha256 of the operation/outcome log")
 REQUIRED_PROBES = {"quick": ["precompute"], "thorough": ["precompute"]}
+HISTORY_DIFF = {"quick": 160, "thorough": 1500}
 
 
 def budget(tier):
@@ -19,125 +20,6 @@ def budget(tier):
     return dict(runs=800000, wall=840, chunk=600)
 
 
-def execute(prog):
-    if isinstance(prog, dict) and prog.get("differential"):
-        return _execute_differential(prog)
-    return hist.execute(prog)
-
-
-def _execute_differential(prog):
-    """Replay of a process-history finding: the last run of the sequence must
-    give the same results as the same run executed first in this process...
-    which it cannot be any more; so the judge is: run the whole sequence here
-    (fresh interpreter when replayed through ./check replay) and compare the
-    last run's result digest with the digest of the same program executed in
-    a fresh interpreter on its own."""
-    import json
-    import os
-    import subprocess
-    import sys
-    out = core.new_outcome()
-    last = None
-    for p_ in prog["multi"]:
-        last = hist.execute(p_)
-        if last.get("violation"):
-            return last
-    p = subprocess.run(
-        [sys.executable, "-B", "-c",
-         "import sys, json; sys.path.insert(0, %r); "
-         "from dsim import core, hist; core.lib(); "
-         "print('RD ' + hist.execute(json.loads(sys.stdin.read()))['rdigest'])"
-         % core.VERIF], input=json.dumps(core.jsonable(prog["alone"])),
-        capture_output=True, text=True, timeout=600,
-        env=dict(os.environ, PYTHONHASHSEED="5"))
-    line = [l for l in p.stdout.splitlines() if l.startswith("RD ")]
-    if not line:
-        raise core.HarnessError("differential judge failed: " + p.stderr[-500:])
-    alone = line[0][3:]
-    if last is not None and last.get("rdigest") != alone:
-        out["violation"] = core.violation(
-            ID, "process-history", "results-differ",
-            "after %d earlier runs in this interpreter the last run's result "
-            "digest is %s; executed alone in a fresh interpreter it is %s"
-            % (len(prog["multi"]) - 1, last.get("rdigest"), alone))
-    return out
-
-
 def generate(run_seed, tier):
     return hist.gen_program("C19", run_seed, tier, odd_toys(), named_small(),
                             (5, 60 if tier == "quick" else 120), named_frac=0.08)
-
-
-# ---------------------------------------------------------------------------
-# process-history differential: the normalised results of a run must not
-# depend on what the same interpreter did before (hidden module-level state
-# in the library: a cache keyed too coarsely, a memo, a counter).  N runs are
-# executed in a fresh interpreter in forward order and in another one in
-# reversed order (different PYTHONHASHSEED); per-run result digests must agree.
-
-def _history_worker(seed, tier, n, order):
-    core.lib()
-    import sys as _sys
-    mod = _sys.modules[__name__]
-    idx = list(range(n))
-    if order == "rev":
-        idx.reverse()
-    res = {}
-    for i in idx:
-        prog = generate(core.derive(seed, "C19-hist", tier, i), tier)
-        out = core.execute_any(mod, prog)
-        v = out.get("violation")
-        res[str(i)] = [out.get("rdigest"), v["cls"] if v else None]
-    import json as _json
-    print("RESULT " + _json.dumps(res, sort_keys=True))
-
-
-def extra(tier, seed):
-    import json
-    import os
-    import subprocess
-    import sys
-    import time
-    t0 = time.time()
-    n = 160 if tier == "quick" else 1500
-    outs = []
-    for hs, order in (("11", "fwd"), ("424242", "rev")):
-        env = dict(os.environ, PYTHONHASHSEED=hs)
-        p = subprocess.run(
-            [sys.executable, "-B", "-c",
-             "import sys; sys.path.insert(0, %r); "
-             "from dsim.props import c19; c19._history_worker(%d, %r, %d, %r)"
-             % (core.VERIF, seed, tier, n, order)],
-            capture_output=True, text=True, env=env, timeout=3000)
-        line = [l for l in p.stdout.splitlines() if l.startswith("RESULT ")]
-        if p.returncode or not line:
-            raise core.HarnessError("history worker failed: %s"
-                                    % p.stderr[-800:])
-        outs.append(json.loads(line[0][7:]))
-    viols = []
-    diff = sorted((int(i) for i in outs[0] if outs[0][i] != outs[1][i]))
-    if diff:
-        i = diff[0]
-        # in the reversed order run i was preceded by runs n-1 .. i+1
-        hist_idx = list(range(n - 1, i, -1)) + [i]
-        progs = [generate(core.derive(seed, "C19-hist", tier, j), tier)
-                 for j in hist_idx]
-        alone = outs[0][str(i)] if i == 0 else None
-        v = core.violation(
-            ID, "process-history", "results-differ",
-            "run %d gives result digest %r when the interpreter executed runs "
-            "0..%d before it, and %r when it executed runs %d..%d before it: "
-            "some result depends on hidden process-global state in the "
-            "library" % (i, outs[0][str(i)], i - 1, outs[1][str(i)], n - 1,
-                         i + 1))
-        viols.append(dict(index=-1 - i, run_seed=0,
-                          program=dict(multi=progs, differential=True,
-                                       alone=progs[-1]),
-                          violation=v))
-    return dict(evaluations=2 * n, distinct_nontrivial=n,
-                samples=[dict(kind="process-history differential", runs=n,
-                              orders=["forward", "reversed"],
-                              differing_runs=diff[:5])],
-                wall_s=time.time() - t0, violations=viols,
-                report=dict(process_history_runs=n,
-                            differing=len(diff)))
